@@ -388,18 +388,21 @@ def phase2 (P : BasicP) (lbs : Nat) (data : ByteArray) (mask curIx cm key maxLen
       | some t => some (.inr t, b)
     else none
 
+/-- `if dictionary.is_some() && USE_DICTIONARY != 0 && !is_match_found { SearchInStaticDictionary(.., shallow = true) }` -/
+def dictStep (useDict : Bool) (lbs : Nat) (dict : Option (List DictItem)) (data : ByteArray)
+    (cm maxLength maxBackward maxDistance : Nat) (s : LoopSt) (c : Common) : Option (Bool × SR × Common) :=
+  match dict with
+  | some items =>
+    if useDict ∧ ¬ s.found then
+      searchInStaticDictionary lbs items data cm maxLength maxBackward maxDistance s.out c
+    else some (s.found, s.out, c)
+  | none => some (s.found, s.out, c)
+
 /-- static dictionary (only if nothing was found) and the final store of `cur_ix` -/
 def phase3 (P : BasicP) (useDict : Bool) (lbs : Nat) (dict : Option (List DictItem)) (data : ByteArray)
     (curIx cm key maxLength maxBackward maxDistance : Nat) (s : LoopSt) (b : Tab) (c : Common) :
     Option Ret :=
-  let dictRes : Option (Bool × SR × Common) :=
-    match dict with
-    | some items =>
-      if useDict ∧ ¬ s.found then
-        searchInStaticDictionary lbs items data cm maxLength maxBackward maxDistance s.out c
-      else some (s.found, s.out, c)
-    | none => some (s.found, s.out, c)
-  match dictRes with
+  match dictStep useDict lbs dict data cm maxLength maxBackward maxDistance s c with
   | none => none
   | some (found, out, c) =>
     if P.sweep = 0 then none          -- `wrapping_rem(0)`
@@ -408,31 +411,38 @@ def phase3 (P : BasicP) (useDict : Bool) (lbs : Nat) (dict : Option (List DictIt
       | none => none
       | some b => some (found, out, b, c)
 
+/-- after the bucket phase: return, or go on to the dictionary and the final store -/
+def finish2 (P : BasicP) (useDict : Bool) (lbs : Nat) (dict : Option (List DictItem)) (data : ByteArray)
+    (curIx cm key maxLength maxBackward maxDistance : Nat) (c : Common)
+    (r2 : Option ((Ret ⊕ SweepSt) × Tab)) : Option Ret :=
+  match r2 with
+  | none => none
+  | some (.inl r, _) => some r
+  | some (.inr t, b) => phase3 P useDict lbs dict data curIx cm key maxLength maxBackward maxDistance t.s b c
+
+/-- after the cached-distance phase: return, or go on to the bucket -/
+def finish1 (P : BasicP) (useDict : Bool) (lbs : Nat) (dict : Option (List DictItem)) (data : ByteArray)
+    (mask curIx cm key maxLength maxBackward maxDistance bestLenIn : Nat) (b : Tab) (c : Common)
+    (r1 : Option (Ret ⊕ SweepSt)) : Option Ret :=
+  match r1 with
+  | none => none
+  | some (.inl r) => some r
+  | some (.inr t) =>
+    finish2 P useDict lbs dict data curIx cm key maxLength maxBackward maxDistance c
+      (phase2 P lbs data mask curIx cm key maxLength maxBackward bestLenIn t b c)
+
 /-- `fn FindLongestMatch` of `BasicHasher<T>`; `useDict` = `USE_DICTIONARY() != 0`,
 `dict` = `dictionary.is_some()` together with the oracle's slots; `gap = 0` -/
 def findLongestMatch (P : BasicP) (useDict : Bool) (lbs : Nat) (dict : Option (List DictItem))
     (data : ByteArray) (mask : Nat) (cache : List Int) (curIx maxLength maxBackward maxDistance : Nat)
     (out : SR) (b : Tab) (c : Common) : Option Ret :=
-  let cm := curIx &&& mask
-  match BV.Hasher.Basic.hashAt P data cm with
-  | none => none
-  | some key =>
-  match byteAt data (cm + out.len) with
-  | none => none
-  | some cc0 =>
-  match cache[0]? with
-  | none => none
-  | some c0 =>
-  match phase1 P lbs data mask curIx cm key maxLength maxBackward (i32ToUsize c0) cc0
-      { out with lenXCode := 0 } b c with
-  | none => none
-  | some (.inl r) => some r
-  | some (.inr t) =>
-  match phase2 P lbs data mask curIx cm key maxLength maxBackward out.len t b c with
-  | none => none
-  | some (.inl r, _) => some r
-  | some (.inr t, b) =>
-    phase3 P useDict lbs dict data curIx cm key maxLength maxBackward maxDistance t.s b c
+  (BV.Hasher.Basic.hashAt P data (curIx &&& mask)).bind fun key =>
+  (byteAt data ((curIx &&& mask) + out.len)).bind fun cc0 =>
+  (cache[0]?).bind fun c0 =>
+    finish1 P useDict lbs dict data mask curIx (curIx &&& mask) key maxLength maxBackward maxDistance
+      out.len b c
+      (phase1 P lbs data mask curIx (curIx &&& mask) key maxLength maxBackward (i32ToUsize c0) cc0
+        { out with lenXCode := 0 } b c)
 
 end Basic
 
